@@ -147,6 +147,13 @@ def handle : List String → Option String
       let rows ← parseHexNat? rows; let cols ← parseHexNat? cols; let m ← parseHexInt? m; let es ← parseInts? es
       if es.length ≠ rows * cols ∨ cols = 0 ∨ cols > rows then none else
       pure (hs (SqiModel.Howell.toLists (SqiModel.Howell.matRightKerMod rows cols (SqiModel.Howell.ofLists (toMat cols es)) m)).flatten)
+  | ["repint", nd, trials, p, n, st] => do
+      let nd ← parseHexNat? nd; let trials ← parseHexNat? trials; let p ← parseHexInt? p; let n ← parseHexInt? n
+      let st ← parseStream? st
+      pure (match representInteger probabPrime (nd != 0) trials n p st with
+        | .ok (o, rest) => "1 " ++ h o.nOut ++ " " ++ hs o.coord ++ " " ++ h o.denom ++ " " ++ toHex (st.length - rest.length)
+        | .fail => "0"
+        | .ub => "ub")
   | "chkker2e" :: e :: es => do
       let e ← parseHexNat? e; let es ← parseInts? es
       if es.length ≠ 20 then none else
